@@ -14,6 +14,7 @@ import (
 	"io"
 	"math"
 	"math/big"
+	"math/rand"
 	"sort"
 	"strings"
 	"time"
@@ -810,21 +811,6 @@ func (g *gen) boundaries() []*tree {
 		}
 		return &tree{Kind: 's', D: []byte{byte('a' + i%26)}}
 	}
-	for _, n := range []int{0, 1, 2, 254, 255, 256, 257} {
-		a := &tree{Kind: '['}
-		o := &tree{Kind: '{'}
-		for i := 0; i < n; i++ {
-			a.Elems = append(a.Elems, small(i))
-			o.Names = append(o.Names, keyName((i*7)%n)) // unsorted insertion order, distinct (7 coprime to n unless n%7==0)
-			o.Elems = append(o.Elems, small(i))
-		}
-		if !o.wellFormed() {
-			for i := range o.Names {
-				o.Names[i] = keyName(n - 1 - i)
-			}
-		}
-		out = append(out, a, o)
-	}
 	// payload of the container = target bytes exactly, with 1..3 elements
 	for _, target := range []int{254, 255, 256, 257, 65534, 65535, 65536, 65537} {
 		for variantNo := 0; variantNo < 3; variantNo++ {
@@ -850,6 +836,21 @@ func (g *gen) boundaries() []*tree {
 			}
 			out = append(out, a, o, &tree{Kind: '[', Elems: []*tree{o, a}})
 		}
+	}
+	for _, n := range []int{0, 1, 2, 254, 255, 256, 257} {
+		a := &tree{Kind: '['}
+		o := &tree{Kind: '{'}
+		for i := 0; i < n; i++ {
+			a.Elems = append(a.Elems, small(i))
+			o.Names = append(o.Names, keyName((i*7)%n)) // unsorted insertion order, distinct (7 coprime to n unless n%7==0)
+			o.Elems = append(o.Elems, small(i))
+		}
+		if !o.wellFormed() {
+			for i := range o.Names {
+				o.Names[i] = keyName(n - 1 - i)
+			}
+		}
+		out = append(out, a, o)
 	}
 	// strings around the short-string limit, alone and as elements
 	for _, n := range []int{0, 1, 62, 63, 64, 65, 127, 128, 255, 256} {
@@ -1068,14 +1069,14 @@ func minSize(v int) int {
 }
 
 type altEnc struct {
-	c    *core.Ctx
+	rng  *rand.Rand
 	dict map[string]int
 }
 
-func (a *altEnc) pick(min int) int { return min + a.c.Rng.Intn(5-min) }
+func (a *altEnc) pick(min int) int { return min + a.rng.Intn(5-min) }
 
 func (a *altEnc) value(t *tree) []byte {
-	r := a.c.Rng
+	r := a.rng
 	switch t.Kind {
 	case 's':
 		if len(t.D) <= 63 && r.Intn(2) == 0 {
@@ -1176,23 +1177,24 @@ func collectNames(t *tree, set map[string]bool) {
 // altEncode: a random conforming encoding of t: dictionary in a random order
 // with unused entries, wider offsets, is_large, long-form strings, shuffled
 // object values.
-func altEncode(c *core.Ctx, t *tree) (meta, val []byte) {
+func altEncode(seed int64, t *tree) (meta, val []byte) {
+	rng := rand.New(rand.NewSource(seed))
 	set := map[string]bool{}
 	collectNames(t, set)
-	if c.Rng.Intn(2) == 0 {
-		set["unused-"+fmt.Sprint(c.Rng.Intn(100))] = true
+	if rng.Intn(2) == 0 {
+		set["unused-"+fmt.Sprint(rng.Intn(100))] = true
 	}
 	names := make([]string, 0, len(set))
 	for n := range set {
 		names = append(names, n)
 	}
 	sort.Strings(names)
-	sorted := c.Rng.Intn(2) == 0
+	sorted := rng.Intn(2) == 0
 	if !sorted {
-		c.Rng.Shuffle(len(names), func(i, j int) { names[i], names[j] = names[j], names[i] })
+		rng.Shuffle(len(names), func(i, j int) { names[i], names[j] = names[j], names[i] })
 	}
 	isSorted := sort.StringsAreSorted(names)
-	a := &altEnc{c: c, dict: map[string]int{}}
+	a := &altEnc{rng: rng, dict: map[string]int{}}
 	total := 0
 	for i, n := range names {
 		a.dict[n] = i
@@ -1204,7 +1206,7 @@ func altEncode(c *core.Ctx, t *tree) (meta, val []byte) {
 	}
 	osz := a.pick(minSize(m))
 	h := byte(1) | byte(osz-1)<<6
-	if isSorted && c.Rng.Intn(2) == 0 {
+	if isSorted && rng.Intn(2) == 0 {
 		h |= 1 << 4 // the flag may be left unset on a sorted dictionary
 	}
 	meta = putUint([]byte{h}, len(names), osz)
@@ -1220,11 +1222,11 @@ func altEncode(c *core.Ctx, t *tree) (meta, val []byte) {
 	return meta, a.value(t)
 }
 
-func checkAltDecode(c *core.Ctx, t *tree) {
+func checkAltDecode(c *core.Ctx, t *tree, seed int64) {
 	var meta, val []byte
 	func() {
 		defer func() { recover() }()
-		meta, val = altEncode(c, t)
+		meta, val = altEncode(seed, t)
 	}()
 	if val == nil {
 		return
@@ -1339,6 +1341,16 @@ func shrinkTree(t *tree, fails func(*tree) bool) *tree {
 		}
 	}
 	return cur
+}
+
+// runAltDecode: the random choices of the alternative encoding are a function
+// of the seed, so a failing tree can be shrunk under the same seed.
+func runAltDecode(c *core.Ctx, t *tree) {
+	seed := c.Rng.Int63()
+	if c.Probe(func() { checkAltDecode(c, t, seed) }) {
+		min := shrinkTree(t, func(x *tree) bool { return c.Probe(func() { checkAltDecode(c, x, seed) }) })
+		checkAltDecode(c, min, seed)
+	}
 }
 
 func runEncodeCase(c *core.Ctx, t *tree, bucket string) {
@@ -2227,7 +2239,7 @@ func runC19(c *core.Ctx) {
 	// corpus: the boundary trees
 	for i, t := range g.boundaries() {
 		runEncodeCase(c, t, "encode/boundary")
-		checkAltDecode(c, t)
+		runAltDecode(c, t)
 		if i%9 == 0 {
 			addVmEnc(t)
 		}
@@ -2259,7 +2271,7 @@ func runC19(c *core.Ctx) {
 		t := g.tree(1+c.Rng.Intn(5), c.Rng.Intn(3) == 0)
 		runEncodeCase(c, t, fmt.Sprintf("encode/random/%c", t.Kind))
 		if i%3 == 0 {
-			checkAltDecode(c, t)
+			runAltDecode(c, t)
 			c.Case("decode/conforming", "alt:"+t.text(), t.Kind == '[' || t.Kind == '{')
 		}
 		if i < 3 {
